@@ -58,3 +58,26 @@ Theorem C09_machine_serial : forall T (s0 : mstate) (ths : nat -> list mop) (sch
     sh mstate mresult (option mresult) c 0 = fold_left (fun st op => fst (step T st op)) ops s0.
 Proof. exact writer_threads_serial. Qed.
 Print Assumptions C09_machine_serial.
+
+(* SOURCE STRUCTURE.  Gen/Structure.v is regenerated from /repo's source (Python `ast`) on every run: the
+   synchronisation skeleton of every public method.  On EVERY execution path of EVERY public mutator of
+   SyncedCollection / SyncedDict / SyncedList, every access to the in-memory data, every conversion of a value into a
+   child and every merge happens while the load-and-save section (which holds the collection's lock) is open ... *)
+From SC Require Import Model.Val Model.Struct Gen.Structure Proofs.StructProofs.
+Theorem C09_mutators_touch_data_only_inside_their_section :
+  forall m tr, In m Structure.methods -> is_mutator (sm_name m) = true -> Struct.paths false (sm_body m) tr ->
+  Forall (fun p : bool * sev => needs_ls (snd p) = true -> fst p = true) tr.
+Proof. exact (mutator_paths_guarded Structure.methods gen_structure_ok). Qed.
+Print Assumptions C09_mutators_touch_data_only_inside_their_section.
+
+(* ... and there is exactly ONE such section on every path that does not raise: a mutator is one atomic step of the
+   schedule model above, not two (what defect D12 was) *)
+Theorem C09_mutators_are_one_section :
+  forall m, In m Structure.methods -> is_mutator (sm_name m) = true -> mutator_ok (sm_body m) = true.
+Proof. exact (structure_mutators Structure.methods gen_structure_ok). Qed.
+Print Assumptions C09_mutators_are_one_section.
+
+(* no concrete class falls back on a collections.abc mixin for a mutator (those are several separately locked steps) *)
+Theorem C09_no_mixin_mutators : forallb (fun x : str * str * bool => snd x) mutator_owners = true.
+Proof. exact gen_mutators_library_owned. Qed.
+Print Assumptions C09_no_mixin_mutators.
